@@ -263,6 +263,11 @@ class Report:
         self.coverage = {}
         self.assumptions = []
         self.known = load_known()
+        d = os.path.join(VERIF, "replays", pid)
+        if os.path.isdir(d):
+            for f in os.listdir(d):
+                if f.endswith(".json"):
+                    os.remove(os.path.join(d, f))
 
     def violation(self, sig, replay, found_input=True):
         """Register a violation unless it matches a known finding."""
